@@ -105,7 +105,8 @@ class FeatureCoverInjector(Injector):
         ret, (col,) = self._preprocess(data, col, return_df=True)
 
         # hide and reorder
-        n = sample_size // len(ret[col].unique())
+        n_groups = len(ret[col].unique())
+        n = sample_size // n_groups if n_groups else 0  # no groups in data without rows
         ret = ret.groupby(col).sample(n=n, random_state=random_state)
         ret = ret.drop(columns=[col]).reset_index(drop=True)
 
